@@ -350,6 +350,29 @@ def extract_fn(d, repo=REPO, plain=False):
     return lines, info
 
 
+def errno_consts(repo):
+    """`impl Errno { pub const NAME: Self = Self(v); .. }` for every name in rusl's errno_impl! list,
+    values read from the linux-rust-bindings source in the cargo registry (x86_64)."""
+    import glob
+    src = open(os.path.join(repo, "rusl/src/error/errno.rs"), encoding="utf-8").read()
+    m = re.search(r"errno_impl!\s*\((.*?)\);", src, re.S)
+    if not m:
+        raise AnchorLost("errno_impl! list not found in rusl/src/error/errno.rs")
+    names = re.findall(r"^\s*([A-Z][A-Z0-9_]*)\s*,", m.group(1), re.M)
+    vals = {}
+    for f in glob.glob(os.path.expanduser("~/.cargo/registry/src/*/linux-rust-bindings-0.1.3/src/errno/errno_x86.rs")):
+        for mm in re.finditer(r"pub const (E[A-Z0-9_]+): i32 = (\d+);", open(f).read()):
+            vals[mm.group(1)] = int(mm.group(2))
+    lines = ["impl Errno {"]
+    for n in names:
+        if n in vals:
+            lines.append("    pub const %s: Self = Self(%d);" % (n, vals[n]))
+    lines.append("}")
+    if len(lines) < 10:
+        raise AnchorLost("errno constants could not be resolved")
+    return lines
+
+
 def render(template_path, repo=REPO, plain=False):
     """Process a template; returns Extracted."""
     ex = Extracted()
@@ -374,6 +397,10 @@ def render(template_path, repo=REPO, plain=False):
             ex.functions.append(info)
             for k, v in info["rules"].items():
                 ex.rule_counts[k] = ex.rule_counts.get(k, 0) + v
+        elif ln.lstrip().startswith("//@@errno-consts"):
+            for t in errno_consts(repo):
+                out.append((t, {"k": "template", "line": i + 1}))
+            i += 1
         elif ln.lstrip().startswith("//@@plain-only "):
             if plain:
                 out.append((ln.lstrip()[len("//@@plain-only "):], {"k": "template", "line": i + 1}))
